@@ -65,6 +65,26 @@ where
     return self.shared.metrics.snapshot();
   }
 
+  /// Verification hook: `(role, address)` of every hybrid lock of this cache, so that a check
+  /// can name the locks reported by `fibre::verif_lock_hook`. Roles: `shard{i}` (shard map),
+  /// `maint{i}` (shard maintenance lock), `batch` (read-access batcher stripes), `pending`
+  /// (pending-load maps).
+  #[cfg(excsn_fibre_verif)]
+  pub fn verif_lock_addrs(&self) -> Vec<(String, usize)> {
+    let mut out = Vec::new();
+    for (i, shard) in self.shared.store.shards.iter().enumerate() {
+      out.push((format!("shard{i}"), &shard.map as *const _ as usize));
+      out.push((format!("maint{i}"), &shard.maintenance_lock as *const _ as usize));
+      for a in shard.read_access_batcher.verif_stripe_addrs() {
+        out.push(("batch".to_string(), a));
+      }
+    }
+    for p in self.shared.pending_loads.iter() {
+      out.push(("pending".to_string(), p as *const _ as usize));
+    }
+    out
+  }
+
   /// Looks up an entry and, if found, applies a closure to the value.
   ///
   /// This is the most efficient way to read a value from the cache as it
@@ -916,6 +936,8 @@ where
       #[cfg(excsn_fibre_verif)]
       crate::verif_sched::point("maint:before_ttl");
       Janitor::cleanup_ttl_for_shard(shard, i, &janitor_context);
+      #[cfg(excsn_fibre_verif)]
+      crate::verif_sched::point("maint:before_tti");
       Janitor::cleanup_tti_for_shard(shard, i, &janitor_context);
       Janitor::cleanup_capacity_for_shard(shard, i, &janitor_context);
       #[cfg(excsn_fibre_verif)]
